@@ -165,7 +165,8 @@ class Scheduler:
     def _location(self, frame: Any) -> str:
         if frame is None:
             return "-"
-        return f"{os.path.basename(frame.f_code.co_filename)}:{frame.f_lineno}"
+        c = frame.f_code
+        return f"{os.path.basename(c.co_filename)}:{frame.f_lineno}:{c.co_qualname}"
 
     def yield_point(self, cur: Client, frame: Any = None, boundary: bool = False) -> None:
         self.global_step += 1
